@@ -24,12 +24,15 @@ import (
 	"encoding/xml"
 	"fmt"
 	"io"
+	"log"
 	"math"
 	"math/rand"
 	"net/http"
 	"net/http/httptest"
 	"reflect"
+	"sort"
 	"strings"
+	"unicode/utf8"
 
 	"github.com/flamego/flamego"
 )
@@ -470,6 +473,7 @@ func execRender(args []string, lines [][]string) []string {
 	var action func(c flamego.Context, r flamego.Render)
 	f.Any("/", func(c flamego.Context, r flamego.Render) { action(c, r) })
 
+	var srv *httptest.Server // started on the first `wire` request of the session
 	outs := []string{"new"}
 	for _, l := range lines {
 		if len(l) == 3 && l[0] == "V" {
@@ -485,8 +489,8 @@ func execRender(args []string, lines [][]string) []string {
 		var fresh func() interface{}
 		rt, encFailed := false, false
 		switch {
-		case (kind == "bin" || kind == "txt") && len(l) == 5:
-		case (kind == "json" || kind == "xml") && len(l) == 8:
+		case (kind == "bin" || kind == "txt") && len(l) == 6:
+		case (kind == "json" || kind == "xml") && len(l) == 9:
 			v, _, fresh = buildValue(l[5])
 			rt = l[4] == "1"
 			encFailed = l[7] != "ok"
@@ -557,10 +561,74 @@ func execRender(args []string, lines [][]string) []string {
 				}
 			}
 		}
-		outs = append(outs, fmt.Sprintf("%d %s %s %s %s", rec.Code, hx(rec.Header().Get("Content-Type")),
-			hx(rec.Result().Header.Get("Content-Type")), hx(string(body)), dec))
+		sent := rec.Result().Header
+		lenTok := "len=none"
+		if cl, ok := sent["Content-Length"]; ok {
+			lenTok = "len=bad"
+			if len(cl) == 1 && cl[0] == fmt.Sprint(len(body)) {
+				lenTok = "len=ok"
+			}
+		}
+		wireTok := "wire=-"
+		if l[len(l)-1] == "1" {
+			if srv == nil {
+				srv = httptest.NewUnstartedServer(f)
+				srv.Config.ErrorLog = log.New(io.Discard, "", 0)
+				srv.Start()
+				defer srv.Close()
+			}
+			wireTok = wireCheck(srv, method, rec.Code, sent.Get("Content-Type"), body)
+		}
+		outs = append(outs, fmt.Sprintf("%d live=%s sent=%s %s %s %s %s", rec.Code, showHeader(rec.Header()),
+			showHeader(sent), hx(string(body)), dec, lenTok, wireTok))
 	}
 	return outs
+}
+
+// header names whose values are printed; any other header appears by name only
+var shownValues = map[string]bool{"Content-Type": true, "X-Content-Type-Options": true, "Content-Length": true}
+
+// showHeader lists every header, sorted by name: `name:hexvalue` for the ones above, else the bare name.
+func showHeader(h http.Header) string {
+	var items []string
+	for k, vs := range h {
+		if shownValues[k] {
+			items = append(items, k+":"+hx(strings.Join(vs, "\x00")))
+		} else {
+			items = append(items, k)
+		}
+	}
+	if len(items) == 0 {
+		return "-"
+	}
+	sort.Strings(items)
+	return strings.Join(items, ",")
+}
+
+// wireCheck serves the same request once more through a real net/http server and client and
+// compares what the CLIENT receives with what the recorder was handed (status, the Content-Type
+// if one was set, every body byte). A Content-Length that disagrees with the body shows up here
+// the way a user sees it: a truncated or empty body, or a failed read.
+func wireCheck(srv *httptest.Server, method string, code int, ctype string, body []byte) string {
+	req, err := http.NewRequest(method, srv.URL+"/", nil)
+	if err != nil {
+		return "wire=bad"
+	}
+	client := srv.Client()
+	client.CheckRedirect = func(*http.Request, []*http.Request) error { return http.ErrUseLastResponse }
+	resp, err := client.Do(req)
+	if err != nil {
+		return "wire=bad"
+	}
+	defer resp.Body.Close()
+	got, err := io.ReadAll(resp.Body)
+	if err != nil || resp.StatusCode != code || !bytes.Equal(got, body) {
+		return "wire=bad"
+	}
+	if ctype != "" && resp.Header.Get("Content-Type") != ctype {
+		return "wire=bad"
+	}
+	return "wire=ok"
 }
 
 // ---- visibility ----------------------------------------------------------------------
@@ -685,7 +753,7 @@ var (
 	oddCharsets    = []string{"UTF-16", "iso-8859-1", "x y", "\"q\"", "ü"}
 	oddIndents     = []string{" ", "    ", " \t", "\n", "--"}
 	specialCodes   = []int{100, 101, 103, 204, 304, 600, 999}
-	byteSamples    = []string{"", "a", "hello, world\n", "\x00\x01\x02\xff\xfe", "\xc3\x28 not utf-8 \x80", "<html>&amp;</html>",
+	byteSamples    = []string{"", "a", "hello, world\n", "héllo wörld", "世界 😀 ñ", "é", "mixed \xe4\xb8\x96 then broken \xe4\xb8", "\xf0\x9f\x98", "\x00\x01\x02\xff\xfe", "\xc3\x28 not utf-8 \x80", "<html>&amp;</html>",
 		"{\"json\":true}", strings.Repeat("0123456789abcdef", 300)}
 )
 
@@ -727,7 +795,33 @@ func randPre(r *rand.Rand) string {
 }
 
 // encodedOp builds an `R json|xml …` line for the value spec under the session's indentation.
-func encodedOp(method, kind string, status int, pre, spec, indent string) string {
+// wireSampler decides which requests are also served over a real connection: every 20th, and
+// every 3rd PlainText whose text has multi-byte or invalid UTF-8 (where bytes ≠ runes) — but only
+// where net/http transmits what it is handed: not HEAD, every status involved in 200..599 except
+// 204 and 304 (1xx are informational on the wire, 204/304 carry no body).
+type wireSampler struct{ n, mb int }
+
+func wireCode(c int) bool { return c >= 200 && c <= 599 && c != 204 && c != 304 }
+
+func (ws *wireSampler) flag(method, kind string, status int, pre, payload string) int {
+	ws.n++
+	pick := ws.n%20 == 0
+	if kind == "txt" && utf8.RuneCountInString(payload) != len(payload) {
+		ws.mb++
+		pick = pick || ws.mb%3 == 0
+	}
+	if !pick || method == "HEAD" || !wireCode(status) {
+		return 0
+	}
+	for _, a := range parsePre(pre) {
+		if a.kind == "h" && !wireCode(a.code) {
+			return 0
+		}
+	}
+	return 1
+}
+
+func encodedOp(ws *wireSampler, method, kind string, status int, pre, spec, indent string) string {
 	head := method == "HEAD"
 	v, rt, _ := buildValue(spec)
 	var ref []byte
@@ -751,7 +845,8 @@ func encodedOp(method, kind string, status int, pre, spec, indent string) string
 	if rt {
 		rtf = 1
 	}
-	return fmt.Sprintf("R %s %d %s %d %s %s %s", kind, status, pre, rtf, spec, hx(string(ref)), res)
+	return fmt.Sprintf("R %s %d %s %d %s %s %s %d", kind, status, pre, rtf, spec, hx(string(ref)), res,
+		ws.flag(method, kind, status, pre, ""))
 }
 
 var (
@@ -831,6 +926,7 @@ func randChain(r *rand.Rand) string {
 
 func genRender(r *rand.Rand, tier string, emit Emit) {
 	thorough := tier == "thorough"
+	ws := &wireSampler{}
 	// ---- small scope, exhaustive: every method × charset × json indent × xml indent, and in each
 	// every kind × status × pre × a few payloads
 	statuses := []int{200, 404, 204, 100}
@@ -839,7 +935,7 @@ func genRender(r *rand.Rand, tier string, emit Emit) {
 		statuses = []int{200, 201, 404, 500, 204, 304, 100, 599, 999}
 		pres = append(pres, "h:202,w:"+hx("x"), "c:"+hx("image/png")+",h:500", "w:"+hx(""))
 	}
-	bins := []string{"", "a", "\x00\xff\xfe\x80"}
+	bins := []string{"", "a", "\x00\xff\xfe\x80", "héllo 世界 😀"}
 	jsons := []string{pickRT("jv:%d:2"), "jmap", pickRT("jr:%d:1"), "jchan"}
 	xmls := []string{pickRT("xpt:%d"), pickRT("xp:%d"), pickRT("xl:%d:2"), "xbadchan"}
 	for _, m := range renderMethods {
@@ -850,14 +946,14 @@ func genRender(r *rand.Rand, tier string, emit Emit) {
 					for _, st := range statuses {
 						for _, pre := range pres {
 							for _, b := range bins {
-								emit("R bin %d %s %s", st, pre, hx(b))
-								emit("R txt %d %s %s", st, pre, hx(b))
+								emit("R bin %d %s %s %d", st, pre, hx(b), ws.flag(m, "bin", st, pre, b))
+								emit("R txt %d %s %s %d", st, pre, hx(b), ws.flag(m, "txt", st, pre, b))
 							}
 							for _, s := range jsons {
-								emit("%s", encodedOp(m, "json", st, pre, s, ji))
+								emit("%s", encodedOp(ws, m, "json", st, pre, s, ji))
 							}
 							for _, s := range xmls {
-								emit("%s", encodedOp(m, "xml", st, pre, s, xi))
+								emit("%s", encodedOp(ws, m, "xml", st, pre, s, xi))
 							}
 						}
 					}
@@ -917,13 +1013,15 @@ func genRender(r *rand.Rand, tier string, emit Emit) {
 			st, pre := randStatus(r), randPre(r)
 			switch k := r.Intn(20); {
 			case k < 4:
-				emit("R bin %d %s %s", st, pre, hx(renderRandBytes(r)))
+				b := renderRandBytes(r)
+				emit("R bin %d %s %s %d", st, pre, hx(b), ws.flag(m, "bin", st, pre, b))
 			case k < 8:
-				emit("R txt %d %s %s", st, pre, hx(renderRandBytes(r)))
+				b := renderRandBytes(r)
+				emit("R txt %d %s %s %d", st, pre, hx(b), ws.flag(m, "txt", st, pre, b))
 			case k < 13:
-				emit("%s", encodedOp(m, "json", st, pre, randJSONSpec(r), ji))
+				emit("%s", encodedOp(ws, m, "json", st, pre, randJSONSpec(r), ji))
 			case k < 18:
-				emit("%s", encodedOp(m, "xml", st, pre, randXMLSpec(r), xi))
+				emit("%s", encodedOp(ws, m, "xml", st, pre, randXMLSpec(r), xi))
 			default:
 				emit("V %s %s", randChain(r), randChain(r))
 			}
